@@ -1198,7 +1198,7 @@ fn run_static(c: &Case, tc: &TestCase, buf: &mut String) {
             let outs = row.expected.iter().map(|r| format!("{}:{}", nm(&r.signal.name), expval_s(r.value))).collect::<Vec<_>>().join(" ");
             format!("SROW {} | {} | {}", row.line, inputs_s(&row.inputs), outs)
         };
-        let mode = c.seed % 3;
+        let mode = c.seed % 5;
         let _ = verif_hooks::take_rng_log();
         let res = catch_unwind(AssertUnwindSafe(|| {
             let Ok(mut it) = tc.try_iter_static() else { return Err("constructor failed".to_string()) };
@@ -1220,9 +1220,38 @@ fn run_static(c: &Case, tc: &TestCase, buf: &mut String) {
                         got.push((k + 2, item.as_ref().map(&sline).unwrap_or_else(|_| "ITEM err".to_string())));
                     }
                 }
-                _ => {
+                2 => {
                     for (k, item) in it.step_by(2).enumerate().take(n + 2) {
                         got.push((2 * k, item.as_ref().map(&sline).unwrap_or_else(|_| "ITEM err".to_string())));
+                    }
+                }
+                3 => {
+                    // the first item, then count(): one visited item, and the number of the others
+                    for (k, item) in it.by_ref().take(1).enumerate() {
+                        got.push((k, item.as_ref().map(&sline).unwrap_or_else(|_| "ITEM err".to_string())));
+                    }
+                    let rest = it.count();
+                    if rest + got.len() != n {
+                        return Err(format!("take(1) + count() = {} items instead of {n}", rest + got.len()));
+                    }
+                }
+                _ => {
+                    // size_hint() before every item (it may not be wrong, and asking changes nothing), then the items
+                    let mut k = 0usize;
+                    loop {
+                        let (lo, hi) = it.size_hint();
+                        let remaining = n.saturating_sub(k);
+                        if lo > remaining || hi.map_or(false, |h| h < remaining) {
+                            return Err(format!("size_hint ({lo}, {hi:?}) with {remaining} items to come"));
+                        }
+                        match it.next() {
+                            None => break,
+                            Some(item) => got.push((k, item.as_ref().map(&sline).unwrap_or_else(|_| "ITEM err".to_string()))),
+                        }
+                        k += 1;
+                        if k > n + 2 {
+                            break;
+                        }
                     }
                 }
             }
@@ -1236,7 +1265,9 @@ fn run_static(c: &Case, tc: &TestCase, buf: &mut String) {
                 let want: Vec<usize> = match mode {
                     0 => (1..main_rows.len()).step_by(2).collect(),
                     1 => (2..main_rows.len()).collect(),
-                    _ => (0..main_rows.len()).step_by(2).collect(),
+                    2 => (0..main_rows.len()).step_by(2).collect(),
+                    3 => (0..main_rows.len().min(1)).collect(),
+                    _ => (0..main_rows.len()).collect(),
                 };
                 if got.iter().map(|g| g.0).collect::<Vec<_>>() != want {
                     format!("mode {mode}: visited {} items instead of {}", got.len(), want.len())
@@ -1594,11 +1625,30 @@ fn run_dig(c: &Case, buf: &mut String) {
                     }
                     edits.push(format!("\n{}", t.source));
                     let mut problem = String::new();
-                    for (k, e) in edits.iter().enumerate() {
+                    edits.push(t.source.clone());
+                    let n_variants = 5usize;
+                    for (k, (e, variant)) in edits.iter().flat_map(|e| (0..n_variants).map(move |v| (e, v))).enumerate() {
+                        if variant == 0 && e == &t.source {
+                            continue;
+                        }
                         let mut f2 = file.clone();
                         f2.test_cases[i].source = e.clone();
-                        if k % 2 == 1 {
-                            f2.signals.reverse();
+                        match variant {
+                            1 => f2.signals.reverse(),
+                            2 => {
+                                f2.signals.pop();
+                            }
+                            3 => {
+                                if !f2.signals.is_empty() {
+                                    f2.signals.remove(0);
+                                }
+                            }
+                            4 => {
+                                if let Some(sg) = f2.signals.first_mut() {
+                                    sg.name.push_str("_r");
+                                }
+                            }
+                            _ => {}
                         }
                         let sigs2 = f2.signals.clone();
                         let want = catch_unwind(AssertUnwindSafe(|| match ParsedTestCase::from_str(e) {
@@ -1665,6 +1715,15 @@ fn run_dig(c: &Case, buf: &mut String) {
                     let b = sig(f2.load_test(last));
                     if a != b {
                         return format!("the renamed test {last} is not found under its new name: [{:.60}] vs [{:.60}]", a, b);
+                    }
+                    // a name that differs from a label in letter case only is another name
+                    for t in &file.test_cases {
+                        let flipped: String = t.name.chars().map(|ch| if ch.is_ascii_lowercase() { ch.to_ascii_uppercase() } else { ch.to_ascii_lowercase() }).collect();
+                        for other in [flipped, format!(" {}", t.name), format!("{} ", t.name), t.name.to_lowercase(), t.name.to_uppercase()] {
+                            if !file.test_cases.iter().any(|x| x.name == other) && file.load_test_by_name(&other).is_ok() {
+                                return format!("load_test_by_name({other:?}) finds a test although no test has that label");
+                            }
+                        }
                     }
                     let c_ = sig(f2.load_test_by_name(&old));
                     let want = match f2.test_cases.iter().position(|x| x.name == old) {
@@ -1897,18 +1956,7 @@ fn run_case(c: &Case) -> String {
                                 }
                                 let edit_sigs = |sigs: &mut Vec<Signal>| {
                                     if mode == 1 {
-                                        if let Some(sg) = sigs.iter_mut().find(|sg| sg.is_input()) {
-                                            sg.bits = sg.bits % 8 + 1;
-                                            match &mut sg.typ {
-                                                SignalType::Input { default } | SignalType::Bidirectional { default } => {
-                                                    *default = match *default {
-                                                        InputValue::Value(v) => InputValue::Value(v ^ 1),
-                                                        InputValue::Z => InputValue::Value(1),
-                                                    }
-                                                }
-                                                _ => {}
-                                            }
-                                        }
+                                        edit_signal_list(sigs);
                                     }
                                 };
                                 // the fresh test is BOUND to the edited list (odd seeds: bound first, then edited like the used one)
@@ -1936,18 +1984,7 @@ fn run_case(c: &Case) -> String {
                                     }
                                     let edit = |t: &mut TestCase| {
                                         if mode == 1 {
-                                            if let Some(sg) = t.signals.iter_mut().find(|sg| sg.is_input()) {
-                                                sg.bits = sg.bits % 8 + 1;
-                                                match &mut sg.typ {
-                                                    SignalType::Input { default } | SignalType::Bidirectional { default } => {
-                                                        *default = match *default {
-                                                            InputValue::Value(v) => InputValue::Value(v ^ 1),
-                                                            InputValue::Z => InputValue::Value(1),
-                                                        }
-                                                    }
-                                                    _ => {}
-                                                }
-                                            }
+                                            edit_signal_list(&mut t.signals);
                                         }
                                     };
                                     if c.seed % 2 != 0 {
@@ -2023,6 +2060,36 @@ fn run_case(c: &Case) -> String {
                                     match verdict {
                                         None => out(&mut buf, "REUSE same"),
                                         Some(v) => out(&mut buf, &format!("REUSE DIFFERENT {v}")),
+                                    }
+                                    // `name` is a public field as well: once a test is bound, its rows go by position; a program that
+                                    // reads no output by name runs the same after an input and an output have been renamed (the
+                                    // driver is built from the renamed list and answers under the new names)
+                                    if !has_reads {
+                                        let tag = "Zq9Zq9";
+                                        // (a name that also occurs in the program text, other than once in the header, may be looked up
+                                        // by name at run time - a variable bound only inside a block that never runs: not renamed)
+                                        let words: Vec<&str> = c.src.split(|ch: char| !(ch.is_ascii_alphanumeric() || ch == '_')).collect();
+                                        let plain = |n: &str| !n.is_empty() && n.chars().all(|ch| ch.is_ascii_alphanumeric() || ch == '_') && words.iter().filter(|w| **w == n).count() <= 1;
+                                        let mut ren = fresh.clone();
+                                        let mut n_renamed = 0;
+                                        if let Some(sg) = ren.signals.iter_mut().find(|sg| sg.is_input() && plain(&sg.name)) {
+                                            sg.name = format!("{tag}{}", sg.name);
+                                            n_renamed += 1;
+                                        }
+                                        if let Some(sg) = ren.signals.iter_mut().find(|sg| matches!(sg.typ, SignalType::Output) && plain(&sg.name)) {
+                                            sg.name = format!("{tag}{}", sg.name);
+                                            n_renamed += 1;
+                                        }
+                                        if n_renamed > 0 && !a.contains(tag) {
+                                            let b = run_one(&ren).replace(tag, "");
+                                            if b == a {
+                                                out(&mut buf, "RENAME same");
+                                            } else {
+                                                let (la, lb): (Vec<&str>, Vec<&str>) = (a.lines().collect(), b.lines().collect());
+                                                let i = (0..la.len().min(lb.len())).find(|&i| la[i] != lb[i]).unwrap_or(la.len().min(lb.len()));
+                                                out(&mut buf, &format!("RENAME DIFFERENT line {i}: [{:.70}] vs [{:.70}]", lb.get(i).unwrap_or(&"<end>"), la.get(i).unwrap_or(&"<end>")));
+                                            }
+                                        }
                                     }
                                     // resetRandom replays the run's own start, whatever the seed: the same test once more with
                                     // the generator seeded by the system; every two segments of draws agree as far as their bounds do
@@ -2188,6 +2255,27 @@ fn adapt_check<D: TestDriver<Error = DrvError>>(c: &Case, tc: &TestCase, driver:
     match got.iter().zip(main_items.iter()).position(|(a, b)| a != b) {
         Some(i) => format!("item {i}: [{:.60}] vs [{:.60}]", got[i], main_items[i]),
         None => String::new(),
+    }
+}
+
+/// The edit a caller may make to the public signal list of a test: the first input-capable signal gets another width,
+/// EVERY input-capable signal (column of the test or not) another default
+fn edit_signal_list(sigs: &mut [Signal]) {
+    let mut first = true;
+    for sg in sigs.iter_mut().filter(|sg| sg.is_input()) {
+        if first {
+            sg.bits = sg.bits % 8 + 1;
+            first = false;
+        }
+        match &mut sg.typ {
+            SignalType::Input { default } | SignalType::Bidirectional { default } => {
+                *default = match *default {
+                    InputValue::Value(v) => InputValue::Value(v ^ 1),
+                    InputValue::Z => InputValue::Value(1),
+                }
+            }
+            _ => {}
+        }
     }
 }
 
